@@ -136,21 +136,26 @@ def run(plan):
 
     async def e2e_main(w):
         D = w.ns.discover.Discover
-        ip = "192.168.7.20"
-        dev_id = plan["device_id"]
-        token = det_bytes(f"e2etok{plan.get('seed')}", 64)
-        key = det_bytes(f"e2ekey{plan.get('seed')}", 32)
-        dev = RefDevice(version=3, device_id=dev_id, token=token, key=key, nonce_seed=b"e2e")
-        for k, v in plan.get("state", {}).items():
-            dev.state[k] = v
-        w.net.listen(ip, 6444, dev)
-        reply = good_reply(3, dev_id, ip, 6444, "000000P0000000Q1B88C29C963BA0000", "net_ac_63BA")
-        w.net.add_udp_host(ip, RefHost(ip, [(0.05, 6445, reply)]))
-        endian = plan["endian"]
-        reg = codec.udpid(dev_id.to_bytes(6, endian)).hex()
-        cloud.tokens[reg] = [{"udpId": reg, "token": token.hex(), "key": key.hex()}]
+        ndev = plan.get("ndev", 1)
+        devs = []
         cloud.default_tokens = lambda u: [{"udpId": u, "token": hashlib.sha512(u.encode()).hexdigest(),
                                            "key": hashlib.sha256(u.encode()).hexdigest()}]
+        for i in range(ndev):
+            ip = f"192.168.7.{20 + i}"
+            dev_id = (plan["device_id"] + 257 * i) & (2 ** 48 - 1)
+            token = det_bytes(f"e2etok{plan.get('seed')}:{i}", 64)
+            key = det_bytes(f"e2ekey{plan.get('seed')}:{i}", 32)
+            dev = RefDevice(version=3, device_id=dev_id, token=token, key=key, nonce_seed=f"e2e{i}".encode())
+            for k, v in plan.get("state", {}).items():
+                dev.state[k] = v
+            dev.state["fan"] = 20 + i
+            w.net.listen(ip, 6444, dev)
+            reply = good_reply(3, dev_id, ip, 6444, "000000P0000000Q1B88C29C963BA0000", "net_ac_63BA")
+            w.net.add_udp_host(ip, RefHost(ip, [(0.05 + 0.001 * i * plan.get("stagger", 0), 6445, reply)]))
+            endian = plan["endian"] if i % 2 == 0 else ("big" if plan["endian"] == "little" else "little")
+            reg = codec.udpid(dev_id.to_bytes(6, endian)).hex()
+            cloud.tokens[reg] = [{"udpId": reg, "token": token.hex(), "key": key.hex()}]
+            devs.append((ip, dev_id, dev, token, key, reg, endian))
         o = await capture(w, D.discover(auto_connect=True, account=acct, password=pwd, region=region,
                                         get_async_client=cloud.client_factory()))
         if not check_requests():
@@ -158,30 +163,41 @@ def run(plan):
         if o.kind != "ok":
             res.fail(f"discover(auto_connect=True) raised {o.exc_type}", repr(o.exc))
             return
-        if len(o.value) != 1:
-            res.fail("discover did not return the V3 host", repr(o.value))
+        by_ip = {d.ip: d for d in o.value}
+        if sorted(by_ip) != sorted(x[0] for x in devs):
+            res.fail("discover did not return every V3 host", repr(sorted(by_ip)))
             return
-        d = o.value[0]
         asked = [r["fields"].get("udpid") for r in cloud.requests if r["path"].endswith("getToken")]
-        le = codec.udpid(dev_id.to_bytes(6, "little")).hex()
-        be = codec.udpid(dev_id.to_bytes(6, "big")).hex()
-        if not asked or any(a not in (le, be) for a in asked):
-            res.fail("token requested for an id not derived from the device id", repr(asked))
+        for ip, dev_id, dev, token, key, reg, endian in devs:
+            d = by_ip[ip]
+            le = codec.udpid(dev_id.to_bytes(6, "little")).hex()
+            be = codec.udpid(dev_id.to_bytes(6, "big")).hex()
+            if reg not in asked:
+                res.fail("token never requested for the registered byte order", f"asked {asked}, registered {endian}")
+                return
+            if d.token != token.hex() or d.key != key.hex():
+                res.fail("device not authenticated with its registered credentials", f"{ip}: token {str(d.token)[:16]}..")
+                return
+            if not d.online:
+                res.fail("device authenticated but not refreshed", ip)
+                return
+            bad = compare_view(d, dev.state, dev.state_len)
+            if bad:
+                res.fail("state after auto-connect differs: " + bad[0][0], repr(bad))
+                return
+            if endian == "big":
+                w.probe("credential_registered_under_big_endian_udpid")
+        known = set()
+        for _ip, dev_id, *_rest in devs:
+            known |= {codec.udpid(dev_id.to_bytes(6, "little")).hex(), codec.udpid(dev_id.to_bytes(6, "big")).hex()}
+        if any(a not in known for a in asked):
+            res.fail("token requested for an id not derived from a device id", repr(asked))
             return
-        if reg not in asked:
-            res.fail("token never requested for the registered byte order", f"asked {asked}, registered {endian}")
-            return
-        if d.token != token.hex() or d.key != key.hex():
-            res.fail("device not authenticated with its registered credentials", f"token {str(d.token)[:16]}..")
-            return
-        if not d.online:
-            res.fail("device authenticated but not refreshed", "")
-            return
-        bad = compare_view(d, dev.state, dev.state_len)
-        if bad:
-            res.fail("state after auto-connect differs: " + bad[0][0], repr(bad))
-        if endian == "big":
-            w.probe("credential_registered_under_big_endian_udpid")
+        n_login = sum(1 for r in cloud.requests if r["path"] == "/v1/user/login" and r["fault"] is None)
+        if n_login > 1:
+            w.probe("more_than_one_login")
+        if ndev > 1:
+            w.fire("concurrent_auto_connect", ndev)
 
     try:
         w.run(select_main if mode != "e2e" else e2e_main)
@@ -278,6 +294,8 @@ def space(tier):
             p["password"] = "".join(rng.choice(ACCOUNT_CHARS) for _ in range(8))
         if rng.random() < 0.3:
             p["faults"] = [rng.choice(["timeout", None]), rng.choice(["timeout", None]), None, None, rng.choice(["timeout", None])]
+        p["ndev"] = rng.choice([1, 1, 2, 3])
+        p["stagger"] = rng.choice([0, 1, 30])
         return p
     sp.add("e2e", 400 if tier == "quick" else 30_000, e2e)
     return sp
